@@ -41,7 +41,8 @@ def hook_part(ctx, r):
     _cmp(ctx, "record", reqs, lambda q: True)
     # file names
     names = ["blk00000.dat", "blk6.dat", "blk1202.dat", "blk13412451.dat", "blkindex.dat", "invalid.dat", "blk.dat", "blk+5.dat", "blk-5.dat", "blk 5.dat", "blk5 .dat", "blk18446744073709551615.dat", "blk18446744073709551616.dat",
-             "blk000000000000000000000000000007.dat", "blk5.dat.bak", "xblk5.dat", "blk5.DAT", "BLK5.dat", "blk５.dat", "blk0x10.dat", "blk1e3.dat", "blk", ".dat", "", "blk++1.dat", "blk1_000.dat"]
+             "blk000000000000000000000000000007.dat", "blk5.dat.bak", "xblk5.dat", "blk5.DAT", "BLK5.dat", "blk５.dat", "blk0x10.dat", "blk1e3.dat", "blk", ".dat", "", "blk++1.dat", "blk1_000.dat",
+             "blk00000.dat.dat", "blk00000.dat.dat.dat", "blkblk00000.dat", "blkblkblk7.dat", "blk7.dat.dat", "blk.dat.dat", "blkblk.dat", "blk00000.datblk", "blk00000.dat.DAT", "blk00000.dat.dat.bak"]
     for _ in range(ctx.n(200, 3000)):
         n = r.choice([r.randrange(10), r.randrange(1 << 20), r.randrange(1 << 64), (1 << 64) - 1])
         names.append("blk%0*d.dat" % (r.randrange(1, 21), n))
